@@ -16,11 +16,22 @@ TBL = os.path.join(os.path.dirname(os.path.abspath(__file__)), "..", "spec", "la
 def parse_tbl():
     kinds = []
     cur = None
+    curd = None
     for ln, raw in enumerate(open(TBL), 1):
         l = raw.split("#")[0].rstrip()
         if not l.strip():
             continue
         f = l.split()
+        if f[0] == "dispatch":
+            # dispatch <Func> <params> ; <results> ; <selector expr with {data}>
+            parts = l.split(None, 1)[1].split(";")
+            cur = None
+            curd = (parts[2].strip(), parts[0].split(None, 1)[1].strip(), parts[1].strip(), [])
+            DISPATCH[parts[0].split()[0]] = curd
+            continue
+        if f[0] == "case":
+            curd[3].append((f[1], f[2]))
+            continue
         if f[0] == "kind":
             cur = dict(pkg=f[1], typ=f[2], flags=f[3:], items=[], line=ln)
             kinds.append(cur)
@@ -104,6 +115,18 @@ def gen_kind(k, ex):
                     enc.append("len(%s) == %d" % (data_e, fixed))
                 if rest:
                     dec.append("%s.%s == be16(%s, %s)" % (d, rest[0], data_d, o))
+                if "nosize" not in k["flags"]:
+                    # nothing dropped, nothing invented: for a conformant length (the fixed value, or at least the
+                    # fixed part and aligned) what was decoded accounts for exactly the announced length
+                    lenexpr = "int(be16(%s, %s))" % (data_d, o)
+                    if fixed is not None:
+                        conf = "%s == %d" % (lenexpr, fixed)
+                    else:
+                        conf = "%s >= {FIXED}" % lenexpr + (" && %s %% 8 == 0" % lenexpr if any(x[0][0] == "align8" for x in items) else "")
+                    if any(x[0][0] == "list" for x in items):
+                        dec.append("(%s ==> size(%s) >= %s)" % (conf, d, lenexpr))      # the list is decoded up to the announced length: nothing dropped
+                    if "sizelax" not in k["flags"]:
+                        dec.append("(%s ==> size(%s) <= %s)" % (conf, d, lenexpr))  # nothing beyond it is taken in
                 off.c += 2
             elif op in ("mac", "ip4", "ip6", "bytes"):
                 n = {"mac": 6, "ip4": 4, "ip6": 16}.get(op) or int(f[1])
@@ -150,18 +173,49 @@ def gen_kind(k, ex):
                 off.c += 4
             elif op == "hdr":
                 t = f[1]
+                hp = f[2] if len(f) > 2 else "Header"
+                if "nosize" not in k["flags"]:
+                    allfixed = not any(x[0][0] in ("enc", "list", "rest", "align8") for x in items)
+                    if any(x[0][0] == "list" for x in items):
+                        dec.append("((len(%s) == int(be16(%s, 2)) && len(%s) %s {FIXEDALL}) ==> size(%s) >= len(%s))" % (data_d, data_d, data_d, "==" if allfixed else ">=", d, data_d))
+                    if "sizelax" not in k["flags"]:
+                        dec.append("((len(%s) == int(be16(%s, 2)) && len(%s) %s {FIXEDALL}) ==> size(%s) <= len(%s))" % (data_d, data_d, data_d, "==" if allfixed else ">=", d, data_d))
                 enc.append("u8(%s, 0) == 4" % data_e)
                 if t == "*":
-                    enc.append("u8(%s, 1) == %s.Header.Type" % (data_e, v))
+                    enc.append("u8(%s, 1) == %s.%s.Type" % (data_e, v, hp))
                 else:
                     enc.append("u8(%s, 1) == %s" % (data_e, t))
                 enc.append("be16(%s, 2) == uint16(len(%s))" % (data_e, data_e))
-                enc.append("be32(%s, 4) == %s.Header.Xid" % (data_e, v))
-                dec.append("%s.Header.Version == u8(%s, 0) && %s.Header.Type == u8(%s, 1) && %s.Header.Length == be16(%s, 2) && %s.Header.Xid == be32(%s, 4)" % (d, data_d, d, data_d, d, data_d, d, data_d))
+                enc.append("be32(%s, 4) == %s.%s.Xid" % (data_e, v, hp))
+                dec.append("%s.%s.Version == u8(%s, 0) && %s.%s.Type == u8(%s, 1) && %s.%s.Length == be16(%s, 2) && %s.%s.Xid == be32(%s, 4)" % (d, hp, data_d, d, hp, data_d, d, hp, data_d, d, hp, data_d))
                 off.c += 8
             elif op == "enc":
+                if len(f) > 2 and f[2] in KINDS:
+                    # the child's leading fixed fields, at the child's offset (pins where the child is placed / read from)
+                    coff = 0
+                    for cf, _ in KINDS[f[2]]["items"]:
+                        cop = cf[0]
+                        if cop in ("u8", "u16", "u32", "u64"):
+                            w = WIDTH[cop]
+                            enc.append("%s(%s, %s) == uint%d(%s.%s.%s)" % (RD[w], data_e, off.s(coff), 8 * w, v, f[1], cf[1]))
+                            dec.append("uint%d(%s.%s.%s) == %s(%s, %s)" % (8 * w, d, f[1], cf[1], RD[w], data_d, off.s(coff)))
+                            coff += w
+                        elif cop == "mac":
+                            enc.append("(len(%s.%s.%s) == 6 ==> bytes_eq(%s, %s, %s.%s.%s, 0, 6))" % (v, f[1], cf[1], data_e, off.s(coff), v, f[1], cf[1]))
+                            dec.append("len(%s.%s.%s) == 6 && bytes_eq(%s.%s.%s, 0, %s, %s, 6)" % (d, f[1], cf[1], d, f[1], cf[1], data_d, off.s(coff)))
+                            coff += 6
+                        elif cop == "pad" or cop == "any":
+                            coff += int(cf[1])
+                        else:
+                            break
                 off.terms.append("size(%s.%s)" % ("{V}", f[1]))
-            elif op in ("list", "rest", "align8"):
+            elif op == "rest":
+                if len(f) > 1:
+                    dec.append("blen(%s.%s) == len(%s) - (%s)" % (d, f[1], data_d, o))
+                break
+            elif op == "parsewhen":
+                k["parsewhen"] = " ".join(f[1:])
+            elif op in ("list", "align8"):
                 break
             else:
                 raise SystemExit("layouts.tbl:%d: unknown item %s" % (ln, op))
@@ -201,7 +255,7 @@ def gen_kind(k, ex):
                 off += 4
         accepts.append(" && ".join(["len(%s) >= %d" % (ddata, off)] + conds))
     enc2 = [c.replace("{V}", ev) for c in enc]
-    dec2 = [c.replace("{V}", dv) for c in dec]
+    dec2 = [c.replace("{V}", dv).replace("{FIXEDALL}", str(minlen)).replace("{FIXED}", str(minlen)) for c in dec]
     out = []
     src = "spec/layouts.tbl:%d" % k["line"]
     if "noenc" not in k["flags"] and enc2:
@@ -219,6 +273,11 @@ def gen_kind(k, ex):
             for c in facts:
                 out.append("//@     invariant[C03] %s" % c)
         out.append("")
+    hdrs = [f for f, _ in k["items"] if f[0] == "hdr" and f[1].isdigit()]
+    if hdrs and dec2 and dcd and "nodec" not in k["flags"]:
+        gk = ("*" + typ) if k["pkg"] == "openflow13" else ("*%s.%s" % (k["pkg"], typ))
+        facts = [re.sub(r"\b%s\b" % re.escape(ddata), "b", re.sub(r"\b%s\." % re.escape(dv), "message.(%s)." % gk, re.sub(r"\b%s\)" % re.escape(dv), "message.(%s))" % gk, c))) for c in dec2]
+        PARSE.append((hdrs[0][1], k.get("parsewhen", ""), gk, facts))
     if "nodec" not in k["flags"] and dec2 and dcd:
         out.append("//@ also %s(%s) (%s) [C04]   // %s" % (decref, ", ".join(dcd["params"]), ", ".join(dcd["results"]), src))
         for c in accepts:
@@ -228,8 +287,16 @@ def gen_kind(k, ex):
         out.append("")
     return out
 
+DISPATCH_MARK = ["//@DISPATCH@", ""]
+DISPATCH = {}
+KINDS = {}
+PARSE = []   # (type code, extra condition, Go kind, [decoder facts])
+
 def main():
     kinds = parse_tbl()
+    for k in kinds:
+        KINDS[k["typ"]] = k
+        KINDS[k["pkg"] + "." + k["typ"]] = k
     bypkg = collections.OrderedDict()
     for k in kinds:
         bypkg.setdefault(k["pkg"], []).append(k)
@@ -246,7 +313,32 @@ def main():
             g = gen_kind(k, ex)
             total += sum(1 for l in g if "ensures[" in l)
             lines += g
+        if pkg == "openflow13":
+            lines += DISPATCH_MARK
         open(os.path.join(REPO, pkg, "zz_contracts_zlayout_verif.go"), "w").write("\n".join(lines) + "\n")
+    # second pass for the openflow13 file: Parse facts and dispatcher tables need every kind processed
+    fn = os.path.join(REPO, "openflow13", "zz_contracts_zlayout_verif.go")
+    s = open(fn).read()
+    extra = ["// the parser entry point hands out a message whose fields are the specified bytes (per kind, by type code)",
+             "//@ also Parse(b) (message, err) [C04]"]
+    for t, when, gk, facts in PARSE:
+        cond = "err == nil && len(b) >= 8 && u8(b, 1) == %s" % t + ((" && " + when.replace("{data}", "b")) if when else "")
+        for c in facts:
+            extra.append("//@   ensures[C04] (%s) ==> (typeis(message, %s) && %s)" % (cond, gk, c))
+    lf = os.path.join(REPO, "openflow13", "zz_lemmas_layout_verif.go")
+    if os.path.exists(lf):
+        os.remove(lf)
+    extra.append("")
+    for dname, (sel, dparams, dres, rows) in DISPATCH.items():
+        extra.append("//@ also %s(%s) (%s) [C04]" % (dname, dparams, dres))
+        r0 = dres.split(",")[0].strip()
+        ok = ("%s == nil" % dres.split(",")[1].strip()) if "," in dres else ("%s != nil" % r0)
+        for code, gk in rows:
+            extra.append("//@   ensures[C04] (%s && %s == %s) ==> typeis(%s, *%s)" % (ok, sel.replace("{data}", dparams.split(",")[0].strip()), code, r0, gk))
+        extra.append("")
+    s = s.replace("//@DISPATCH@", "\n".join(extra))
+    open(fn, "w").write(s)
+    total += sum(1 for l in extra if "ensures[" in l)
     print("layout clauses:", total)
 
 main()
